@@ -160,7 +160,16 @@ def run_shard(shard, tier, seed, acc) -> None:
             continue
         # every other cell of the SHA512 nonce configuration loads the root key with nothing but key and id (load_key's defaults)
         minimal = m == "nonce" and h == "SHA512" and idx % 2 == 1
-        v, blob = roundtrip(rk, m, sid, plaintext(seed, ln), ft, api, cache=seams.make_cache(rk, minimal=True) if minimal else None)
+        cell_cache = seams.make_cache(rk, minimal=True) if minimal else None
+        if m == "nonce" and h != "SHA512" and idx % 2 == 1:
+            # the application first loaded this root key id with load_key's defaults (wrong for this key: SHA512) and then, before any use,
+            # again with the attributes the directory really holds: the cache answers for what was loaded LAST
+            import dpapi_ng
+
+            cell_cache = dpapi_ng.KeyCache()
+            cell_cache.load_key(rk.key, rk.rkid)
+            seams.load_root(cell_cache, rk)
+        v, blob = roundtrip(rk, m, sid, plaintext(seed, ln), ft, api, cache=cell_cache)
         n += 1
         if v:
             acc.violate(v[0], ["cell", h, m, ln, sid, ft, api], v[1], size=ln + len(sid))
